@@ -194,6 +194,8 @@ func installIntrinsics(m *Machine) {
 				}
 			}()
 			r.call(fr, a[1], nil, 0)
+			// the process may also die after the last step of the region, before anything further is synced
+			r.crashPoint("end-of-region", nil, nil)
 		}()
 		r.FS.Armed = false
 		return Bool{C: crashed}
